@@ -145,7 +145,9 @@ def tlc(module, cfg=None, env=None, workers=None, timeout=1800, extra=None, simu
     e["JAVA_TOOL_OPTIONS"] = "-Xss512m"
     if env:
         e.update(env)
-    cmd = ["timeout", str(timeout), "tlc", "-workers", str(workers or NPROC),
+    # (the main thread evaluates ASSUMEs: give it a large stack too)
+    cmd = ["bash", "-c", 'ulimit -s 4000000 2>/dev/null || ulimit -s unlimited 2>/dev/null; exec "$@"', "tlc-wrap",
+           "timeout", str(timeout), "tlc", "-workers", str(workers or NPROC),
            "-metadir", meta, "-cleanup", "-noGenerateSpecTE", "-nowarning"]
     if coverage:
         cmd += ["-coverage", "1"]
